@@ -288,6 +288,7 @@ type End struct {
 	stall   atomic.Bool
 	stalled atomic.Int32
 	reads   atomic.Int32
+	writes  atomic.Int32
 	done    chan struct{}
 }
 
@@ -317,7 +318,13 @@ func (e *End) Read(b []byte) (int, error) {
 
 // ActiveReads is the number of Read calls executing on this end right now.
 func (e *End) ActiveReads() int { return int(e.reads.Load()) }
+
+// ActiveWrites is the number of Write calls executing on this end right now.
+func (e *End) ActiveWrites() int { return int(e.writes.Load()) }
+
 func (e *End) Write(b []byte) (int, error) {
+	e.writes.Add(1)
+	defer e.writes.Add(-1)
 	if e.stall.Load() {
 		e.stalled.Add(1)
 		for e.stall.Load() {
